@@ -151,6 +151,8 @@ def term_str(t, depth=0):
         return 'elem(%s)' % term_str(t[1], d)
     if k == 'at':
         return path_str(t[1], d)
+    if k == 'ptr_at':
+        return path_str(t[1], d)
     if k == 'elemref':
         return '&elem(%s)' % term_str(t[1], d)
     if k == 'elem':
@@ -1198,15 +1200,26 @@ class Interp:
         self.write(st, dest, ret)
         return 'next'
 
-    def canon_recv(self, st, t):
-        """Canonical receiver of an I/O call: strip references to references."""
+    def canon_recv(self, st, t, ty=''):
+        """Canonical receiver of an I/O call: strip references to references (`&mut &mut T` -> `&mut T`),
+        using the static type of the receiver operand for the number of layers."""
+        m = re.match(r'^((?:&(?:mut )?)+)', ty or '')
+        layers = m.group(1).count('&') if m else 1
+        for _ in range(max(0, layers - 1)):
+            if t[0] == 'ref':
+                t = self.read(st, t[1])
+            else:
+                t = ('deref', t)
         for _ in range(8):
             if t[0] == 'ref':
                 v = self.read(st, t[1])
-                if v[0] in ('ref', 'param') or (v[0] == 'load' and False):
+                if v[0] in ('ref', 'param'):
                     t = v
                     continue
             break
+        if t[0] == 'load':
+            # a pointer stored in caller-visible memory (e.g. self.source: &mut T): name it by its location
+            return ('ptr_at', t[1])
         return t
 
     def io_prim(self, st, fr, t, decl, args, site):
@@ -1219,12 +1232,12 @@ class Interp:
                 width = PRIM_WIDTH[ty]
             targs = t['fn']['args']
             endian = targs[1].split('::')[-1] if len(targs) > 1 else ('-' if width == 1 else '?')
-            recv = self.canon_recv(st, args[0])
+            recv = self.canon_recv(st, args[0], t['args'][0].get('p', {}).get('ty', ''))
             val = args[1] if rw == 'write' and len(args) > 1 else None
             return ('io', rw, recv, {'ty': ty, 'width': width, 'endian': endian, 'via': 'byteorder'}, val, site)
         k = STD_IO.get(decl)
         if k:
-            recv = self.canon_recv(st, args[0])
+            recv = self.canon_recv(st, args[0], t['args'][0].get('p', {}).get('ty', ''))
             detail = {'via': 'std'}
             val = args[1] if len(args) > 1 else None
             if k in ('read_exact', 'write_all') and len(args) > 1:
